@@ -57,6 +57,10 @@ Theorem C02_invert_additive : forall f k1 k2 f2,
   invert_fig f k2 = Some f2 -> invert_fig f2 k1 = invert_fig f (k1 + k2).
 Proof. exact invert_fig_add. Qed.
 
+(* the explicit root position figure '5' (what I.o(1) builds) inverts like '' - never an error (repaired: it raised) *)
+Theorem C02_invert_five : forall k, invert_fig "5" k = invert_fig "" k.
+Proof. exact invert_fig_five. Qed.
+
 Theorem C02_invert_chord_additive : forall c k1 k2 c2, invert c k2 = Some c2 ->
   invert c2 k1 = (do f <- invert_fig (fig (cext c)) (k1 + k2) ;;
                   getitem c2 (mkE f (repl (cext c2)) (adds (cext c2)) (rems (cext c2)))).
